@@ -281,10 +281,13 @@ def run_property(prop, tier='quick', update_baseline=False, only=None, verbose=F
                         'solver_s': round(o.time, 3), 'smt2_bytes': getattr(o, 'smt2_size', 0),
                         'goal': str(o.goal)[:300]})
     n_real = len([o for o in all_obs if o.kind != 'cover'])
+    known_obs = [o for o in refuted + unknown if is_known(o)]
     ev = {
         'property_id': prop, 'tier': tier, 'seed': seed, 'level': 'proof',
         'coverage': {
-            'obligations': len(all_obs), 'discharged': len(proved),
+            # obligations that are recorded known findings are listed separately, not counted here
+            'obligations': len(all_obs) - len(known_obs), 'discharged': len(proved),
+            'known_finding_obligations': [o.name for o in known_obs],
             'checker_cmd': f'./check {prop} {tier}',
             'trusted_base': sorted(trusted) + ['z3 ' + z3.get_version_string(), 'cvc5 1.0.3 (fallback)', 'pyvc'],
             'functions_under_contract': [
@@ -394,18 +397,29 @@ def confirm(ob):
     if st is None or r.engine is None:
         return {'status': 'inconclusive', 'diffs': ['no state']}
     neg = [z3.Not(ob.goal)] if ob.kind != 'cover' else []
+    rebase, skip_calls = None, 0
     if st.heap.get('__cut__'):
-        return {'status': 'inconclusive', 'diffs': ['obligation lies behind a loop cut: no straight-line replay']}
+        rb = st.heap.get('__rebase__')
+        if not rb or getattr(ob, 'outcome', None) is not None:
+            return {'status': 'inconclusive',
+                    'diffs': ['obligation lies behind a loop cut: no straight-line replay']}
+        rebase, skip_calls = rb      # start the real function in the loop-head state of the failing iteration
     oc = getattr(ob, 'outcome', None)
     if oc is not None:
         return replay.replay_path(r, oc, extra=neg)
     # mid-path obligation: replay the prefix and compare the calls made so far
     from .engine import Outcome
     from .values import VNone
-    m = solve.model_for(ob.pc, neg + list(st.heap.get('__defs__', ())))
+    extra = neg + list(st.heap.get('__defs__', ()))
+    m = solve.model_for(ob.pc, extra + replay.byte_ranges(list(ob.pc) + extra))
+    if m is None:
+        m = solve.model_for(ob.pc, extra)
     if m is None:
         return {'status': 'no-model'}
-    job, cz = replay.build_job(r, st, m, getattr(ob, 'engine', None))
+    job, cz = replay.build_job(r, st, m, getattr(ob, 'engine', None), rebase=rebase)
+    if rebase:
+        job['script'] = job['script'][skip_calls:]
+        job['rebased'] = 'entry state = loop-head state of the failing iteration'
     nat = replay.run_native(job)
     diffs = []
     ncalls = nat.get('calls', [])
